@@ -1,5 +1,7 @@
 """C17 - File inspection recognises writer output: validity, encoding family, blocking."""
 import io
+import tempfile
+import zlib
 
 from hypothesis import strategies as st
 
@@ -8,7 +10,7 @@ from vlib.harness import exc_sig
 from vlib.strat import uniform
 from cardutil import mciipm
 from cardutil import config as cfgmod
-from props import c06
+from props import c06, c09
 
 LEVEL = 'exploration'
 EXHAUSTIVE = True
@@ -28,8 +30,24 @@ ASCII_FAMILY = ['latin_1', 'ascii', 'cp1252', 'iso8859_15']
 EBCDIC_FAMILY = ['cp500', 'cp037', 'cp1140', 'cp273']
 
 
+class SourceDependent(Exception):
+    pass
+
+
 def inspect(data):
-    return mciipm.ipm_info(io.BytesIO(data))
+    info = mciipm.ipm_info(io.BytesIO(data))
+    if zlib.crc32(data) % 3 == 0:
+        # the same bytes arriving over a read-only stream without seek/tell (a pipe, standard input) and from a real file
+        other = mciipm.ipm_info(c09.Pipe(data))
+        if other != info:
+            raise SourceDependent(f'read-only stream: {other!r}; in-memory file: {info!r}')
+        with tempfile.TemporaryFile(prefix='cardutil-verif-c17-') as f:
+            f.write(data)
+            f.seek(0)
+            other = mciipm.ipm_info(f)
+        if other != info:
+            raise SourceDependent(f'operating-system file: {other!r}; in-memory file: {info!r}')
+    return info
 
 
 def write_file(msgs, codec, blocked):
@@ -39,6 +57,16 @@ def write_file(msgs, codec, blocked):
         for m in msgs:
             w.write(copy.deepcopy(m))
     return f.getvalue()
+
+
+def expect_valid(data, sig, desc):
+    try:
+        info = inspect(data)
+    except Exception as ex:
+        return exc_sig('ipm_info-raises', ex), f'ipm_info raised {ex!r} on {desc}'
+    if info.get('isValidIPM') is not True:
+        return sig, f'{desc}: reported invalid ({info.get("reason")!r})'
+    return None
 
 
 def check_valid(data, codec, blocked, desc):
@@ -236,10 +264,9 @@ def invalid_classes(ctx):
                 data = ln.to_bytes(4, 'big') + body
                 n += 1
                 if valid:
-                    info = inspect(data)
-                    if info.get('isValidIPM') is not True:
-                        ctx.report('max-length-reported-invalid', {'kind': 'firstlen', 'max': mx, 'ln': ln},
-                                   f'first length {ln} (maximum {mx}) reported invalid: {info.get("reason")!r}')
+                    res = expect_valid(data, 'max-length-reported-invalid', f'first length {ln} (maximum {mx})')
+                    if res:
+                        ctx.report(res[0], {'kind': 'firstlen', 'max': mx, 'ln': ln}, res[1])
                 else:
                     res = check_invalid(data, f'first length {ln} with maximum {mx}')
                     if res:
@@ -260,9 +287,9 @@ def invalid_classes(ctx):
             if configured:
                 if not bit1:
                     continue   # what a bitmap with bit 1 clear and only configured elements is, no statement says
-                info = inspect(data)
-                if info.get('isValidIPM') is not True:
-                    ctx.report('configured-bit-reported-invalid', {'kind': 'bit', 'bit': bit, 'bit1': bit1}, f'bit {bit} is configured but the file is reported invalid: {info.get("reason")!r}')
+                res = expect_valid(data, 'configured-bit-reported-invalid', f'first bitmap uses configured element {bit}')
+                if res:
+                    ctx.report(res[0], {'kind': 'bit', 'bit': bit, 'bit1': bit1}, res[1])
             else:
                 res = check_invalid(data, f'first bitmap uses unconfigured element {bit} (bit 1 {"set" if bit1 else "clear"})')
                 if res:
@@ -318,8 +345,7 @@ def replay(case):
         data = write_file([small_message(1, 300), small_message(2, 50)], 'latin_1', False) if case['file'] == 'latin_1' else write_file([small_message(1, 300)], 'cp500', True)
         return check_invalid(data[:case['cut']], 'replayed truncation')
     if k == 'raw':
-        info = inspect(case['data'])
-        return None if info.get('isValidIPM') is True else ('24-bytes-reported-invalid', str(info))
+        return expect_valid(case['data'], '24-bytes-reported-invalid', 'replayed 24-byte input')
     if k == 'firstlen':
         saved = cfgmod.config.get('MAX_VBS_RECORD_LENGTH')
         try:
@@ -327,8 +353,7 @@ def replay(case):
             body = b'1644' + refcodec.bitmap_bytes([2]) + b'16' + b'5' * 16 + b'x' * 40
             data = case['ln'].to_bytes(4, 'big') + body
             if case['ln'] <= case['max']:
-                info = inspect(data)
-                return None if info.get('isValidIPM') is True else ('max-length-reported-invalid', str(info))
+                return expect_valid(data, 'max-length-reported-invalid', 'replayed first length')
             if case.get('blocked'):
                 res = check_invalid(refvbs.block(data), 'replayed first length, inside a 1014 block')
                 return (res[0] + ':blocked', res[1]) if res else None
@@ -340,8 +365,7 @@ def replay(case):
         raw = (case.get('bit1', 1) << 127) | (1 << (128 - bit))
         data = (60).to_bytes(4, 'big') + b'1644' + raw.to_bytes(16, 'big') + b'0' * 40
         if str(bit) in PACKAGED:
-            info = inspect(data)
-            return None if info.get('isValidIPM') is True else ('configured-bit-reported-invalid', str(info))
+            return expect_valid(data, 'configured-bit-reported-invalid', f'configured element {bit}')
         if case.get('blocked'):
             res = check_invalid(refvbs.block(data), f'unconfigured element {bit}, inside a 1014 block')
             return (res[0] + ':bit:blocked', res[1]) if res else None
